@@ -1,4 +1,5 @@
 import DimodProofs.EqualityCqm
+import Generated.EqFields
 import Mathlib.Data.List.Perm.Basic
 import Mathlib.Data.List.Nodup
 
@@ -171,4 +172,98 @@ theorem lookup_retype {α} (t' : α) (v : Label) : ∀ (l : List (Label × α)) 
       simp only [hk, if_false]
       exact ih t h
 
+end Eqm
+
+namespace Eqm
+open QModel
+
+/-! ### the comparison as the interpretation of the source's conjunct list (`Generated/EqFields.lean`) -/
+
+/-- short-circuit `and` of a list of checks -/
+def andM : List (M Bool) → M Bool
+  | [] => pure true
+  | x :: t => do if (← x) then andM t else pure false
+
+/-- one conjunct of `constraint_eq(c0, c1)`; an unknown tag is an error (the theorem below then fails) -/
+def consCheck (mEq : QModel → QModel → M Bool) (rEq : Rat → Rat → Bool) (c d : CCons) (tag : String) : M Bool :=
+  if tag = "sense" then pure (decide (c.sense = d.sense))
+  else if tag = "lhs" then mEq c.lhs d.lhs
+  else if tag = "rhs exact" ∨ tag = "rhs rounded" then pure (rEq c.rhs d.rhs)
+  else throw .attr
+
+/-- one conjunct of the returned `and` chain -/
+def topCheck (mEq : QModel → QModel → M Bool) (rEq : Rat → Rat → Bool) (consTags : List String) (self o : CqmVal) (tag : String) : M Bool :=
+  if tag = "objective" then mEq self.obj o.obj
+  else if tag = "variables" then
+    pure (self.vars.all (fun p => (lookup o.vars p.1).isSome) && o.vars.all (fun p => (lookup self.vars p.1).isSome))
+  else if tag = "vartypes" then pure (self.vars.all (fun p => lookup o.vars p.1 = some p.2 || (lookup o.vars p.1).isNone))
+  else if tag = "constraint labels" then pure (keysEq self.cons o.cons)
+  else if tag = "every constraint" then
+    allConsM self.cons fun c =>
+      match findCons o.cons c.label with
+      | some d => andM (consTags.map (consCheck mEq rEq c d))
+      | none => throw .value
+  else throw .attr
+
+/-- the comparison the source's conjunct lists denote -/
+def cqmCmpBy (top cons : List String) (mEq : QModel → QModel → M Bool) (rEq : Rat → Rat → Bool) (self o : CqmVal) : M Bool :=
+  andM (top.map (topCheck mEq rEq cons self o))
+
+end Eqm
+
+namespace Eqm
+open QModel
+
+theorem vars_split (a o : CqmVal) :
+    ((a.vars.all (fun p => (lookup o.vars p.1).isSome) && o.vars.all (fun p => (lookup a.vars p.1).isSome))
+      && a.vars.all (fun p => lookup o.vars p.1 = some p.2 || (lookup o.vars p.1).isNone)) = varsEq a o := by
+  unfold varsEq
+  rw [Bool.eq_iff_iff]
+  simp only [Bool.and_eq_true, List.all_eq_true, Bool.or_eq_true, decide_eq_true_eq, Option.isNone_iff_eq_none]
+  constructor
+  · rintro ⟨⟨h1, h2⟩, h3⟩
+    refine ⟨fun p hp => ?_, h2⟩
+    rcases h3 p hp with h | h
+    · exact h
+    · have := h1 p hp; rw [h] at this; cases this
+  · rintro ⟨h1, h2⟩
+    exact ⟨⟨fun p hp => by rw [h1 p hp]; rfl, h2⟩, fun p hp => Or.inl (h1 p hp)⟩
+
+theorem cqmCmpBy_eq (tagR : String) (hR : tagR = "rhs exact" ∨ tagR = "rhs rounded")
+    (mEq : QModel → QModel → M Bool) (rEq : Rat → Rat → Bool) (self o : CqmVal) :
+    cqmCmpBy ["objective", "variables", "vartypes", "constraint labels", "every constraint"] ["sense", "lhs", tagR] mEq rEq self o
+      = cqmCmp mEq rEq self o := by
+  have hcons : ∀ c d : CCons, andM (["sense", "lhs", tagR].map (consCheck mEq rEq c d))
+      = (do if c.sense ≠ d.sense then pure false else
+            if !(← mEq c.lhs d.lhs) then pure false else pure (rEq c.rhs d.rhs) : M Bool) := by
+    intro c d
+    have hr : consCheck mEq rEq c d tagR = pure (rEq c.rhs d.rhs) := by
+      rcases hR with rfl | rfl <;> simp [consCheck]
+    simp only [List.map, andM, hr]
+    simp only [consCheck, if_true, String.reduceEq, if_false]
+    by_cases hs : c.sense = d.sense
+    · simp only [hs, decide_true, ne_eq, not_true_eq_false, if_false]
+      cases hm : mEq c.lhs d.lhs with
+      | error e => rfl
+      | ok v => cases v <;> cases hq : rEq c.rhs d.rhs <;> rfl
+    · simp only [hs, decide_false, ne_eq, not_false_eq_true, if_true]
+      rfl
+  unfold cqmCmpBy cqmCmp
+  simp only [List.map, andM]
+  simp only [topCheck, if_true, String.reduceEq, if_false]
+  rw [← vars_split]
+  cases hm : mEq self.obj o.obj with
+  | error e => rfl
+  | ok v =>
+    cases v with
+    | false => rfl
+    | true =>
+      simp only [hcons]
+      cases h1 : (self.vars.all (fun p => (lookup o.vars p.1).isSome) && o.vars.all (fun p => (lookup self.vars p.1).isSome)) <;>
+      cases h2 : self.vars.all (fun p => lookup o.vars p.1 = some p.2 || (lookup o.vars p.1).isNone) <;>
+      cases h3 : keysEq self.cons o.cons <;> simp [bind, Except.bind, pure, Except.pure]
+      generalize allConsM self.cons _ = X
+      cases X with
+      | error e => rfl
+      | ok v => cases v <;> rfl
 end Eqm
